@@ -56,6 +56,10 @@ type Kernel struct {
 	lockWaits   int
 	holdsForced int
 
+	// whether the task is between the library's "cmd.admitted" and "cmd.done"
+	// hook points (a command is being handled)
+	inCmd [maxTasks]bool
+
 	// distinct schedule points seen per task (discovery for hold-until plans)
 	seen  [maxTasks][maxSeen]string
 	nseen [maxTasks]int
@@ -186,10 +190,27 @@ func (k *Kernel) YieldHook(point string) {
 	id := curGoid()
 	for t := 0; t < k.ntasks; t++ {
 		if k.goid[t] == id {
+			switch point {
+			case "cmd.admitted":
+				k.inCmd[t] = true
+			case "cmd.done":
+				k.inCmd[t] = false
+			}
 			k.park(t, point)
 			return
 		}
 	}
+}
+
+// InCommand reports, per task, whether it is inside an admitted command.
+//
+//go:norace
+func (k *Kernel) InCommand() []bool {
+	out := make([]bool, k.ntasks)
+	for t := 0; t < k.ntasks; t++ {
+		out[t] = k.inCmd[t]
+	}
+	return out
 }
 
 //go:norace
